@@ -968,7 +968,10 @@ class Interp:
                 return obj.attrs[name]
             g = self.sm.find_getter(obj.cls, name)
             if g is not None:
-                return self.call_function(g, [obj], self_obj=obj)
+                val = self.call_function(g, [obj], self_obj=obj)
+                if getattr(g, 'cached_property', False):
+                    obj.attrs[name] = val
+                return val
             mth = self.sm.find_method(obj.cls, name)
             if mth is not None:
                 decos = {ast.unparse(d) for d in getattr(mth.node, 'decorator_list', [])}
